@@ -36,6 +36,11 @@ for _k in ("int", "int32", "int64", "rune", "uint", "uint32", "uint64", "byte"):
     EXPECT.append({"src": "b = make([]%s, 1); b[0] = 2; n = b[0]\n[n * 3, 3 * n, n + 1, n - 5, n %% 2, n << 2, -n]" % _k, "field": "result", "want": "[i:6,i:6,i:3,i:-3,i:0,i:8,i:-2]",
                    "why": "integer arithmetic on a value of kind %s gives the int64 result" % _k})
 
+for _k in ("int", "int32", "int64", "rune", "uint", "uint32", "uint64", "byte"):
+    EXPECT.append({"src": "b = make([]%s, 1); b[0] = 2; n = b[0]\n[n + 1.5, 1.5 + n, n - 0.5, n * 1.5, 1.5 * n, n + \"s\", \"s\" + n]" % _k, "field": "result",
+                   "want": "[f:4615063718147915776,f:4615063718147915776,f:4609434218613702656,f:4613937818241073152,f:4613937818241073152,s:3273,s:7332]",
+                   "why": "a value of kind %s with a float operand is carried out in float64, with a string operand it concatenates, on either side" % _k})
+
 
 def run(tier, seed, replay=None):
     return interpcheck.run_interp_check(
